@@ -454,7 +454,10 @@ def _collapse_downstream(ctx):
     def core_key(s):
         return (s.get("sub"), s.get("mode"), s.get("gate"), s.get("param"))
 
-    plain = {core_key(v.signature) for v in ctx.violations if v.signature.get("downstream") == "" and v.signature.get("batch") == ""}
+    plain = {
+        core_key(v.signature) for v in ctx.violations
+        if v.signature.get("downstream") == "" and v.signature.get("batch") == "" and not v.signature.get("squeezing2_elsewhere")
+    }
     last = {core_key(v.signature) + (v.signature.get("batch"),) for v in ctx.violations if v.signature.get("downstream") == ""}
     for v in ctx.violations:
         s = v.signature
@@ -463,6 +466,7 @@ def _collapse_downstream(ctx):
         if core_key(s) in plain:
             s["downstream"] = ""
             s["batch"] = ""
+            s["squeezing2_elsewhere"] = ""
         elif core_key(s) + (s.get("batch"),) in last:
             s["downstream"] = ""
 
@@ -645,6 +649,9 @@ def _sig_for(circuit, mode, sub, col, info):
     else:
         gate = L.GATES[g][0] + ("[%d-mode]" % L.GATES[g][1] if g.startswith("I") else "")
         downstream = "+".join(L.GATES[k][0] for k, _ in circuit["gates"][gi + 1 :])
+    # Squeezing2 elsewhere in the circuit (before or after the differentiated gate): its euler()/takagi() step has a
+    # gauge freedom (repeated singular values) that the connectors fix differently, see F38 / F38-C10
+    s2_elsewhere = any(k == "S2" for j, (k, _) in enumerate(circuit["gates"]) if g == "prep" or j != gi)
     return {
         "check": "C10",
         "sub": sub,
@@ -654,6 +661,7 @@ def _sig_for(circuit, mode, sub, col, info):
         "param": pname.split("@")[0],
         "downstream": downstream,
         "batch": circuit.get("batch") or "",
+        "squeezing2_elsewhere": "yes" if s2_elsewhere else "",
     }
 
 
